@@ -39,8 +39,7 @@ c.finish(
         "translator constant maxDegree (coq/Gen/Gen_C16.v)",
     ],
     partial=[
-        "fanout_partial: no written node has more than maxDegree kids in any run that does not panic; the full statement (Definition fanout_full: the panic branches are unreachable) was FALSE before fix F47 (fanout_refuted_before_F47, about the named pre-fix variant PageTreePre.merge_pre); for the fixed code it is proved for the balancing loop and collapse under the tail invariant (tail_ops_never_panic) and for every program on the root range (no_panic_root_only); that merge() of two ranges restores the tail invariant is not proved (argument in the report); the F47 witness and a sample of its family run in every tier",
         "page_numbers_partial: proved for programs that use the root range only; page_numbers_full (Definition: any nesting of ranges) is not proved - the executable futureInt model, the Coq specification spec_log, the Go statement of it and the real callbacks are compared on every program",
-        "the theorems about the written tree are of the form `run prog = Ok out -> ...`: Ok excludes the Go panics the model represents as Err Panic (fanout_full); running out of fuel is excluded for every program by no_fuel_exhaustion",
+        "the theorems about the written tree are of the form `run prog = Ok out -> ...`: Ok is what every program gives unless it closes the root range itself (run_total): the Go panics the model represents as Err Panic are unreachable (fanout_full, for the code after fix F47; FALSE before it - fanout_refuted_before_F47 about the named pre-fix variant PageTreePre.merge_pre; the F47 witness and a sample of its family run in every tier) and running out of fuel is excluded by no_fuel_exhaustion",
     ],
 )
